@@ -51,6 +51,7 @@ func main() {
 	repo := flag.String("repo", "/repo", "repository root")
 	shim := flag.String("shim", "/verif/shim", "shim sources")
 	out := flag.String("out", "", "scratch output directory")
+	keyRoot := flag.String("keyroot", "", "root the overlay keys refer to (default: -repo); set when -repo is a scratch copy of the tree that the harness module replaces at keyroot")
 	doChan := flag.Bool("chan", true, "rewrite channel constructs of pkg/notify")
 	doDump := flag.Bool("dump", true, "add the state dump file to package klevdb")
 	var repl multi
@@ -58,6 +59,16 @@ func main() {
 	flag.Parse()
 	if *out == "" {
 		fatal("missing -out")
+	}
+	if *keyRoot == "" {
+		*keyRoot = *repo
+	}
+	key := func(p string) string {
+		rel, err := filepath.Rel(*repo, p)
+		if err != nil {
+			return p
+		}
+		return filepath.Join(*keyRoot, rel)
 	}
 	must(os.MkdirAll(filepath.Join(*out, "src"), 0o755))
 
@@ -129,8 +140,8 @@ func main() {
 		f, err := parser.ParseFile(fset, p, src, parser.ParseComments)
 		if err != nil {
 			// leave the file alone: the build will report the error
-			if srcPath != p {
-				overlay[p] = srcPath
+			if srcPath != p || *keyRoot != *repo {
+				overlay[key(p)] = srcPath
 			}
 			continue
 		}
@@ -180,7 +191,7 @@ func main() {
 				return true
 			})
 		}
-		if len(edits) == 0 && srcPath == p && !bytes.Contains(src, []byte("vshim/vchan")) {
+		if len(edits) == 0 && srcPath == p && *keyRoot == *repo && !bytes.Contains(src, []byte("vshim/vchan")) {
 			continue
 		}
 		sort.Slice(edits, func(i, j int) bool { return edits[i].from > edits[j].from })
@@ -190,7 +201,7 @@ func main() {
 		dst := filepath.Join(*out, "src", rel)
 		must(os.MkdirAll(filepath.Dir(dst), 0o755))
 		must(os.WriteFile(dst, src, 0o644))
-		overlay[p] = dst
+		overlay[key(p)] = dst
 	}
 
 	// shim packages: hand-written sources + generated pass-throughs
@@ -208,7 +219,7 @@ func main() {
 		srcs, _ := filepath.Glob(filepath.Join(*shim, sh, "*.go"))
 		defined := map[string]bool{}
 		for _, s := range srcs {
-			overlay[filepath.Join(*repo, "pkg", "vshim", sh, filepath.Base(s))] = s
+			overlay[filepath.Join(*keyRoot, "pkg", "vshim", sh, filepath.Base(s))] = s
 			f, err := parser.ParseFile(fset, s, nil, 0)
 			must(err)
 			for _, decl := range f.Decls {
@@ -249,13 +260,13 @@ func main() {
 		dst := filepath.Join(*out, "shimgen", sh, "zz_passthrough.go")
 		must(os.MkdirAll(filepath.Dir(dst), 0o755))
 		must(os.WriteFile(dst, gen, 0o644))
-		overlay[filepath.Join(*repo, "pkg", "vshim", sh, "zz_passthrough.go")] = dst
+		overlay[filepath.Join(*keyRoot, "pkg", "vshim", sh, "zz_passthrough.go")] = dst
 	}
 
 	if *doDump {
 		dump := filepath.Join(*shim, "dump", "zz_verif_dump.go")
 		if _, err := os.Stat(dump); err == nil {
-			overlay[filepath.Join(*repo, "zz_verif_dump.go")] = dump
+			overlay[filepath.Join(*keyRoot, "zz_verif_dump.go")] = dump
 		}
 	}
 
